@@ -37,7 +37,7 @@ func (check) Assumptions() []string {
 	return []string{
 		"reference = ref/tbin encoder over the value the harness wrote down as JSON (documents are produced by the harness's own renderer, never by dynamicgo)",
 		"domain restrictions (out of the statement's domain, not generated): out-of-range numbers, non-integral numbers for integer types, integer values beyond 2^53 in decimal/exponent spelling, null array elements / null at top level, text after the top-level value, invalid UTF-8 in JSON input, the base field inside the JSON body when EnableThriftBase is on",
-		"both implementations: the native amd64 one in-process with every deviation (DoInto capacities, cache seeds, pools), the portable one (impl_fallback.go, -tags go1.25 binary) through Do for every scenario expressible over the pipe server (single-file program, default parse options, no context values)",
+		"both implementations: the native amd64 one in-process with every deviation (DoInto capacities, cache seeds, pools), the portable one (impl_fallback.go, -tags go1.25 binary) through Do for every scenario expressible over the pipe server (default parse options, no context values)",
 	}
 }
 
@@ -171,7 +171,7 @@ func (s *scen) run() core.Result {
 // portableBits: the conversion options as the bit set the portable pipe server understands, ok=false if they
 // (or the scenario's context / parse options / file layout) cannot be expressed over the pipe.
 func (s *scen) portableBits() (int, bool) {
-	if s.ctx != nil || s.prime != nil || s.popts != (thrift.Options{}) || !s.prog.SingleFile() {
+	if (s.ctx != nil && s.ctx != context.Background()) || s.prime != nil || s.popts != (thrift.Options{}) {
 		return 0, false
 	}
 	bits := 0
@@ -197,7 +197,7 @@ func (s *scen) runPortable(r *core.Result) {
 	if !ok {
 		return
 	}
-	res, died, diag, err := c18.Portable(&c18.Req{IDL: s.prog.IDL(), Opts: []int{bits}, Doc: s.doc})
+	res, died, diag, err := c18.Portable(&c18.Req{IDL: s.prog.IDL(), Inc: s.prog.Includes(), Opts: []int{bits}, Doc: s.doc})
 	r.Count("conversions", 1)
 	r.Count("portable_conversions", 1)
 	switch {
